@@ -631,8 +631,54 @@ def _precedence_native(ds, got):
     return None
 
 
+def _replay_temp_child():
+    """a temporary feature replaced through a hierarchy child must show in the child and in
+    a plugin feature computed from it"""
+    import warnings
+    import numpy as np
+    import dclab
+    from dclab.rtdc_dataset.feat_anc_plugin.plugin_feature import PlugInFeature, remove_plugin_feature
+
+    def make():
+        rng = np.random.RandomState(3)
+        ds = dclab.new_dataset({"area_um": rng.uniform(20, 200, 40), "deform": rng.uniform(0.01, 0.2, 40)})
+        ds.config["filtering"]["area_um min"] = 50
+        ds.config["filtering"]["area_um max"] = 150
+        ds.apply_filter()
+        return ds, dclab.new_dataset(ds)
+    with warnings.catch_warnings():
+        warnings.simplefilter("ignore")
+        dclab.register_temporary_feature("c06_tmp")
+        pf = PlugInFeature("c06_tmp_sq", {"method": lambda mm: np.array(mm["c06_tmp"], dtype=float) ** 2,
+                                          "feature names": ["c06_tmp_sq"], "features required": ["c06_tmp"],
+                                          "version": "0.1.0"})
+        try:
+            ds, child = make()
+            n = len(child)
+            first, second = np.linspace(1, 2, n), np.linspace(5, 9, n)
+            dclab.set_temporary_feature(child, "c06_tmp", first)
+            if not np.allclose(child["c06_tmp_sq"][:], first ** 2):
+                return {"failed": True, "detail": "plugin feature of a temporary feature set through a child is wrong"}
+            dclab.set_temporary_feature(child, "c06_tmp", second)
+            if not np.allclose(child["c06_tmp"][:], second):
+                return {"failed": True, "detail": "a temporary feature replaced through a hierarchy child keeps its old values"}
+            got = np.array(child["c06_tmp_sq"][:])
+            if not np.allclose(got, second ** 2):
+                return {"failed": True, "detail": f"after replacing a temporary feature through a hierarchy child the plugin "
+                                                  f"feature computed from it is stale: {got[:3]} instead of {(second ** 2)[:3]}"}
+            root = np.array(ds["c06_tmp"][:])
+            if np.count_nonzero(~np.isnan(root)) != n:
+                return {"failed": True, "detail": "the root parent does not hold NaN at the events outside the child"}
+        finally:
+            remove_plugin_feature(pf)
+            dclab.rtdc_dataset.feat_temp.deregister_all()
+    return {"failed": False, "detail": "temporary feature and derived plugin feature follow the replacement"}
+
+
 def replay(unit_name, inp, obligation=""):
     import warnings
+    if unit_name.startswith("set_temporary_feature"):
+        return _replay_temp_child()
     feat = unit_name.replace("reads of ", "").split("[")[0]
     state = {k: v for k, v in inp.items()}
     with warnings.catch_warnings():
@@ -905,3 +951,113 @@ class CacheProtocol(Contract):
 
 
 UNITS += [CacheProtocol(False), CacheProtocol(True)]
+
+
+# --------------------------------------------------------------------------
+# temporary features set through a hierarchy child
+# --------------------------------------------------------------------------
+import numpy as _np   # noqa: E402
+from pyvc.sym import F as _F   # noqa: E402
+
+_prev_empty = models._MODELS[_np.empty]
+
+
+def _np_empty_F(interp, shape, dtype=float, **kw):
+    if getattr(getattr(interp.cur_frame, "unit", None), "float_arrays_F", False) and dtype is float:
+        n = shape[0] if isinstance(shape, tuple) else shape
+        return interp.ctx.arr("empty", "F", n=to_z3(n), dtype=_np.dtype("float64"))
+    return _prev_empty(interp, shape, dtype=dtype, **kw)
+
+
+models._MODELS[_np.empty] = _np_empty_F
+
+
+class SetTempChild(Contract):
+    """set_temporary_feature(child, feature, data) for a hierarchy child: the root parent
+    receives an array of its own length that holds data[j] at the root index of child
+    event j and NaN everywhere else, and only afterwards the child is rejuvenated (so
+    that everything derived from the feature is recomputed from the new data)."""
+    path = "dclab/rtdc_dataset/feat_temp.py"
+    module = "dclab.rtdc_dataset.feat_temp"
+    qualname = "set_temporary_feature"
+    name = "set_temporary_feature[hierarchy child]"
+    params = ("rtdc_ds", "feature", "data")
+    float_arrays_F = True
+
+    class Exists(Contract):
+        name = "feature_exists"
+        trusted = True
+
+        def __call__(self, interp, feat, *a, **k):
+            return True
+
+    class C2R(Contract):
+        """map_indices_child2root(child, indices 0..n-1): the root index of every child event --
+        in range and pairwise distinct (C04)"""
+        name = "map_indices_child2root"
+
+        def __call__(self, interp, child, idx):
+            ctx = interp.ctx
+            u = interp.cur_frame.unit
+            ids = ctx.arr("root_ids", "int", n=u._n.e)
+            i, j = z3.Int("i!c2r"), z3.Int("j!c2r")
+            ctx.assume(z3.ForAll([i], z3.Implies(z3.And(i >= 0, i < ids.n), z3.And(ids.sel(i) >= 0, ids.sel(i) < u._nroot.e))))
+            ctx.assume(z3.ForAll([i, j], z3.Implies(z3.And(i >= 0, i < j, j < ids.n), ids.sel(i) != ids.sel(j))))
+            u._ids = ids
+            return ids
+
+    class Self(Contract):
+        name = "set_temporary_feature"
+
+        def __call__(self, interp, ds, feature, data):
+            u = interp.cur_frame.unit
+            u._trace.append(("set", ds, feature, SArr(data.n, data.a, data.kind)))
+            return None
+
+    def __init__(self):
+        super().__init__()
+        self.callees = {"feature_exists": self.Exists(), "map_indices_child2root": self.C2R(),
+                        "set_temporary_feature": self.Self()}
+
+    def inputs(self, ctx):
+        import dclab
+        self._n = ctx.int("n_child", lo=0, inp=True)
+        self._nroot = ctx.int("n_root", lo=0, inp=True)
+        ctx.assume(self._n.e <= self._nroot.e)
+        self._trace = []
+        self._ids = None
+        self._root = ctx.obj("RootDS", {"_N": self._nroot}, name="root")
+        child = ctx.obj("ChildDS", {"_N": self._n, "_events": {}, "_usertemp": {}, "_ancillaries": {}}, name="child")
+        child.realcls = dclab.rtdc_dataset.fmt_hierarchy.RTDC_Hierarchy
+        self._child = child
+        self._data = ctx.arr("data", "F", n=self._n.e, inp=True)
+        return {"rtdc_ds": child, "feature": "tmp_score", "data": self._data}
+
+    def ensures(self, ctx, old, a, result):
+        tr = self._trace
+        ok_order = len(tr) == 2 and tr[0][0] == "set" and tr[0][1] is self._root and tr[0][2] == "tmp_score" \
+            and tr[1] == ("rejuvenate", self._child)
+        posts = [("the root parent is given the data first, then the child is rejuvenated", z3.BoolVal(ok_order))]
+        if tr and tr[0][0] == "set" and self._ids is not None:
+            R, ids = tr[0][3], self._ids
+            j, k = z3.Int("j!st"), z3.Int("k!st")
+            posts.append(("the root receives data[j] at the root index of child event j and NaN at every other event",
+                          z3.And(R.n == self._nroot.e,
+                                 z3.ForAll([j], z3.Implies(z3.And(j >= 0, j < self._n.e), R.sel(ids.sel(j)) == self._data.sel(j))),
+                                 z3.ForAll([k], z3.Implies(z3.And(k >= 0, k < self._nroot.e,
+                                                                  z3.Not(z3.Exists([j], z3.And(j >= 0, j < self._n.e,
+                                                                                               ids.sel(j) == k)))),
+                                                           _F.is_nan(R.sel(k)))))))
+        return posts
+
+
+def _child_len(interp, ds):
+    return ds.fields["_N"]
+
+
+h5model.OBJ_METHODS[("ChildDS", "__len__")] = _child_len
+h5model.OBJ_METHODS[("RootDS", "__len__")] = _child_len
+h5model.OBJ_METHODS[("ChildDS", "get_root_parent")] = lambda interp, ds: interp.cur_frame.unit._root
+h5model.OBJ_METHODS[("ChildDS", "rejuvenate")] = lambda interp, ds: interp.cur_frame.unit._trace.append(("rejuvenate", ds))
+
+UNITS += [SetTempChild()]
